@@ -239,6 +239,7 @@ UNIT['obligations'].update({
   'hmm.find.commit': dict(deciding=True, text='[INT] find: its unlink CAS uses the cell and value validated by the latest acquire_if_equal and the successor frozen by the mark, reclaim only after that CAS succeeded; on return cur is validated, unmarked, was still linked from prev when compared, result = key equality on it'),
   'hmm.insert.commit': dict(deciding=True, text='[INT] insertion: the linking CAS is on the cell/value find validated, installs the private initialised node whose next is that value; true iff this CAS succeeded; otherwise nothing published and the node freed'),
   'hmm.insert.expected_protected': dict(deciding=True, text='[INT] at the linking CAS of an insertion the expected successor is still protected by a guard of this operation (it was not reset between the validating find and the CAS): otherwise the node can be reclaimed and its address recycled in the window and the CAS succeeds on the recycled address (ABA)'),
+  'hmm.sync.orders': dict(deciding=True, text='sync precondition [INT runs]: every guard acquisition uses acquire-or-stronger order, every successful link / unlink CAS is release-or-stronger, every successful marking CAS acquire-or-stronger'),
   'hmm.erase.commit': dict(deciding=True, text='[INT] erase: marking CAS on cur->next from the unmarked value read to the same value with mark; true only after it succeeded; unlink CAS on the validated prev from cur to the frozen successor; retire iff that CAS succeeded, else find is re-run'),
   'hmm.iter.erase.commit': dict(deciding=True, text='[INT] erase(iterator): as erase(key); the returned iterator never designates the erased node'),
   'hmm.iter.inc.progress': dict(deciding=True, text='[INT] ++ never designates the old element again and moves strictly forward, also when another handle inserts/erases next to cur between its steps (F11)'),
